@@ -124,7 +124,8 @@ class TlcResult:
         self.verdicts = []
         for m in re.finditer(r'^"VERDICT\|(\w+)\|(\d+)\|(-?\d+)\|(.*)"\s*$', out, re.M):
             self.verdicts.append((m.group(1), int(m.group(2)), int(m.group(3)), m.group(4).replace('\\"', '"')))
-        self.ok = rc == 0 and "Model checking completed. No error has been found" in out
+        # (simulation mode, tlc -simulate num=N, ends with its own summary)
+        self.ok = rc == 0 and ("Model checking completed. No error has been found" in out or ("The number of states generated" in out and "Simulation using seed" in out and "violated" not in out))
         self.violation = "is violated" in out or "Invariant" in out and "violated" in out
         self.error = rc != 0 and not self.violation
 
